@@ -486,7 +486,7 @@ def run(ctx):
             fnm = lit_of(E, x.args[1])
             dst = g1v(args[0])
             r_ = self.outcomes.get(fnm, 1)
-            self.ev(E, ('read', fnm, r_))
+            self.ev(E, ('read', fnm, r_, dst[1] if isinstance(dst, tuple) else None))
             return [Outcome(ret=fs(r_), sets={'$from:%s' % (dst[1] if isinstance(dst, tuple) else dst): fs(fnm)} if r_ == 1 else {})]
 
         def prim_stralloc_copy(self, E, x, args):
@@ -503,12 +503,13 @@ def run(ctx):
         def prim_constmap_init(self, E, x, args):
             src = g1v(args[1])
             origin = None
+            base = None
             if isinstance(src, tuple) and src[0] == '&':
                 base = src[1][:-len('.s[0]')] if src[1].endswith('.s[0]') else src[1]
                 origin = g1(E, '$from:%s' % base)
             elif isinstance(src, tuple) and src[0] == 'str':
                 origin = ('lit', src[1])
-            self.ev(E, ('init', g1v(args[0]), origin, g1v(args[3]), g1v(args[2])))
+            self.ev(E, ('init', g1v(args[0]), origin, g1v(args[3]), g1v(args[2]), base))
             return [Outcome(ret=fs(1))]
 
         def _ok1(self, E, x, args):
@@ -572,12 +573,19 @@ def run(ctx):
             k_init = ev.index(i_)
             if m_ not in [e[1] for e in ev[:k_init] if e[0] == 'free']:
                 bad5.setdefault('free-before-init:%s' % m_[1][2:], ('%s: map %s re-initialised without being freed' % (txt, m_[1][2:]), tr))
+        # a constmap keeps pointers into the text it was built from: that text must not be a buffer the next re-read fills before it
+        # knows whether it will succeed (a failed second HUP would leave the live tables pointing into overwritten or freed memory)
+        scratch = {e[3] for e in ev if e[0] == 'read' and len(e) > 3 and e[3]}
+        shared = sorted(i_[1][1][2:] for i_ in inits if len(i_) > 5 and i_[5] in scratch)
+        if shared:
+            bad5.setdefault('live-maps-own-their-text', ('%s: %s built directly on the buffer control_readfile() reads into (%s): the next re-read overwrites or reallocates that buffer first and returns early on an error, leaving the table in use pointing into it' % (
+                txt, shared, sorted(b_[2:] for b_ in scratch)), tr))
         want_l, want_v = LOC, (VD if oc[VD] == 1 else ('lit', ''))
         if got[('&', 'G:maplocals')][2] != want_l or (got[('&', 'G:mapvdoms')][2] != want_v and not (oc[VD] == 0 and got[('&', 'G:mapvdoms')][4] == 0)):
             bad5.setdefault('maps-rebuilt-from-the-files-just-read', ('%s: maplocals is rebuilt from %s, mapvdoms from %s (documented: the new contents of the two files; no virtualdomains file = empty map)' %
                                                                       (txt, got[('&', 'G:maplocals')][2], got[('&', 'G:mapvdoms')][2]), tr))
     for k_ in ('reread-succeeds-before-anything-is-freed', 'both-maps-rebuilt', 'colon-flag-agrees:maplocals', 'colon-flag-agrees:mapvdoms',
-               'free-before-init:maplocals', 'free-before-init:mapvdoms', 'maps-rebuilt-from-the-files-just-read'):
+               'free-before-init:maplocals', 'free-before-init:mapvdoms', 'maps-rebuilt-from-the-files-just-read', 'live-maps-own-their-text'):
         r5.check(k_ not in bad5, k_, rg.unit + ':regetcontrols', bad5[k_][0] if k_ in bad5 else '', bad5[k_][1] if k_ in bad5 else None)
     sh = prog.fn('sighup', 'qmail-send.c')
     r5.check(any(x.k == 'asg' and x.args[0].path() == 'G:flagreadasap' and x.args[1].const == 1 for x in sh.all_x()), 'sighup-sets-flagreadasap', sh.unit + ':sighup', '')
@@ -588,6 +596,6 @@ def run(ctx):
     r5.check(okrr, 'loop-calls-reread-when-flagged', mainf.unit + ':main', 'reread() is not reached under "flagreadasap is set" from the main loop')
     rrf = prog.fn('reread', 'qmail-send.c')
     r5.check(bool(rrf.calls('regetcontrols')), 'reread-calls-regetcontrols', rrf.unit + ':reread', '')
-    r5.expect_min(10)
+    r5.expect_min(11)
     rep.assume('which entry wins for a given address, the percent-hack arithmetic and VERP expansion text are string computations and are not decided',
                'constmap_init stores keys up to the colon when flagcolon is set')
